@@ -646,6 +646,14 @@ class Circuit:
         """
         Maps a provided mode to the corresponding internal mode
         """
+        # Integer-valued modes of other numeric types (numpy integers, floats)
+        # are accepted by _mode_in_range, so store them as plain integers
+        if not isinstance(mode, int | Parameter):
+            try:
+                if int(mode) == mode:
+                    mode = int(mode)
+            except (TypeError, ValueError, OverflowError):
+                pass
         for i in sorted(self.__internal_modes):
             if mode >= i:
                 mode += 1
